@@ -356,3 +356,32 @@ Proof.
   destruct fired; [exact Ho|].
   rewrite hget_merge_replace. destruct (hhas k (auth_handle AT ops)); [apply auth_headers_gen; assumption | exact Ho].
 Qed.
+
+(* ------------------------------------------------------------------------------------------ *)
+(* PROTECTIVENESS of the generated tables: a weakened source (X-Frame-Options: ALLOWALL, a short
+   max-age, X-XSS-Protection: 0, ...) breaks these; strengthening does not *)
+Definition proxy_tables_protective : bool :=
+  forallb (fun k => match tbl_lookup k T with Some v => protective k v | None => false end) three &&
+  protective hsts_k (snd H) &&
+  (* every other entry of the table too (no requirement for names the predicate does not know) *)
+  forallb (fun kv => protective (canon (fst kv)) (snd kv)) T.
+Lemma proxy_tables_protective_true : proxy_tables_protective = true.
+Proof. vm_compute. reflexivity. Qed.
+
+Lemma three_protective k tv : In k three -> tbl_lookup k T = Some tv -> protective k tv = true.
+Proof.
+  intros Hin Ht. pose proof proxy_tables_protective_true as P. unfold proxy_tables_protective in P.
+  apply andb_true_iff in P as [P _]. apply andb_true_iff in P as [P _].
+  rewrite forallb_forall in P. specialize (P k Hin). rewrite Ht in P. exact P.
+Qed.
+Lemma hsts_protective : protective hsts_k (snd H) = true.
+Proof. vm_compute. reflexivity. Qed.
+
+(* the auth table: canonical keys distinct (so every entry is the value of its key), the six names
+   present, every entry protective *)
+Definition auth_table_protective : bool :=
+  forallb (fun kv => option_eqb str_eqb (tbl_lookup (canon (fst kv)) AT) (Some (snd kv))) AT &&
+  forallb (fun k => match tbl_lookup k AT with Some v => protective k v | None => false end) auth_names &&
+  forallb (fun kv => protective (canon (fst kv)) (snd kv)) AT.
+Lemma auth_table_protective_true : auth_table_protective = true.
+Proof. vm_compute. reflexivity. Qed.
